@@ -1,4 +1,5 @@
 import Irismod.Props.C07
+import Irismod.Proofs.ServiceMonitor
 open Irismod Irismod.Service Irismod.Props.C07
 #print axioms deposit_escrow_step
 #print axioms deposit_escrow_reachable
@@ -17,3 +18,18 @@ open Irismod Irismod.Service Irismod.Props.C07
 #print axioms tally_reachable
 -- non-vacuity: a promotion-free copy of the witness state satisfies the invariants, the due batch is issued, paid (10stake = the fee recorded), answered and the fee split 1 / 9 at 10% tax
 #eval s!"nonvacuous {let s0 : State := { w1 with binds := [(("s1", "A0"), { w1bind with pricing := { denom := "stake", amount := 10 } })], params := { tax := ⟨100000000000000000⟩ }, owners := [("A0", "A3")] }; let s1 := newBatch s0 "c"; let rid : ReqId := ⟨"c", 1, 20, 0⟩; s1.active == [rid] && Sdk.Bank.balOf s1.bank reqAcc "stake" == 10 && Sdk.Bank.balOf s1.bank "A5" "stake" == 990 && (match keeperRespond s1 "A0" rid true with | .ok s2 => Sdk.Bank.balOf s2.bank fcAcc "stake" == 1 && AMap.getD s2.earned ("A0", "stake") 0 == 9 && AMap.getD s2.oearned ("A3", "stake") 0 == 9 && Sdk.Bank.balOf s2.bank reqAcc "stake" == 9 | .error _ => false)}"
+-- monitor soundness (Proofs/ServiceMonitor*.lean): every clause `drv-service monitor C07` evaluates on an operation line holds on every model step from a state satisfying the line invariant; the invariant (state + monitor memory) is preserved
+#print axioms Irismod.Proofs.ServiceMonitor.monitor_sound
+#print axioms Irismod.Proofs.ServiceMonitor.line_inv
+#print axioms Irismod.Proofs.ServiceMonitor.line_inv_reset
+#print axioms Irismod.Proofs.ServiceMonitor.c07_check_sound
+#print axioms Irismod.Proofs.ServiceMonitor.c07_state_sound
+#print axioms Irismod.Proofs.ServiceMonitor.c07_check_msg_sound
+#print axioms Irismod.Proofs.ServiceMonitor.c07_next_sound
+#print axioms Irismod.Proofs.ServiceMonitor.sinv_apply
+#print axioms Irismod.Proofs.ServiceMonitor.sinv_genesis
+#print axioms Irismod.Proofs.ServiceMonitor.step_never_panics
+#print axioms Irismod.Proofs.ServiceMonitor.noFcConsumer_apply
+#print axioms Irismod.Proofs.ServiceMonitor.ReqsND_apply
+-- non-vacuity of the monitor theorems: the four monitors run on the model's own stream of a 28-line history (answers, expiry with slash and refund, withdrawal, pause / start / kill) without a failure
+#eval s!"nonvacuous monitor {Irismod.Proofs.ServiceMonitor.demoMonitor}"
